@@ -67,32 +67,36 @@ Inductive dev :=
   | DMTop (bid pos : nat) (t : tid)
   | DMParent (bid : nat) (lv : Z) (si : nat) (t : tid)
   | DMParentErr (bid : nat) (lv : Z) (si : nat).
-Fixpoint run_dev (m : mgr) (evs : list dev) : bool :=
+(* the model is run with its own top-list cache (top_of_previous_rung_cached), as the implementation *)
+Fixpoint run_dev (m : mgr) (c : tcache) (evs : list dev) : bool :=
   match evs with
   | [] => true
   | DMNext bid s :: r =>
       match dehb_next_job m with
-      | Ok (m', (bid', s')) => Nat.eqb bid bid' && sir_eqb s s' && run_dev m' r
+      | Ok (m', (bid', s')) => Nat.eqb bid bid' && sir_eqb s s' && run_dev m' c r
       | Error _ => false
       end
   | DMRet bid s ok out :: r =>
       match dehb_mgr_on_result m bid s with
-      | Ok (m', out') => ok && opt_eqb tids_eqb out out' && run_dev m' r
-      | Error _ => negb ok && run_dev m r
+      | Ok (m', out') => ok && opt_eqb tids_eqb out out' && run_dev m' c r
+      | Error _ => negb ok && run_dev m c r
       end
   | DMSize bid n :: r =>
-      match mgr_size_of_current_rung m bid with Ok n' => Nat.eqb n n' && run_dev m r | Error _ => false end
+      match mgr_size_of_current_rung m bid with Ok n' => Nat.eqb n n' && run_dev m c r | Error _ => false end
   | DMTop bid pos t :: r =>
-      match top_of_previous_rung m bid pos with Ok t' => tid_eqb t t' && run_dev m r | Error _ => false end
+      match top_of_previous_rung_cached m c bid pos with
+      | (c', Ok t') => tid_eqb t t' && run_dev m c' r
+      | (_, Error _) => false
+      end
   | DMParent bid lv si t :: r =>
-      match trial_id_from_parent_slot m bid lv si with Ok t' => tid_eqb t t' && run_dev m r | Error _ => false end
+      match trial_id_from_parent_slot m bid lv si with Ok t' => tid_eqb t t' && run_dev m c r | Error _ => false end
   | DMParentErr bid lv si :: r =>
-      match trial_id_from_parent_slot m bid lv si with Ok _ => false | Error _ => run_dev m r end
+      match trial_id_from_parent_slot m bid lv si with Ok _ => false | Error _ => run_dev m c r end
   end.
 Definition dmgr_case := (rung_system * mode * option nat * list dev)%type.
 Definition chk_dmgr (c : dmgr_case) : bool :=
   let '(first, md, nb, evs) := c in
-  match dehb_mgr_init first md nb with Ok m => run_dev m evs | Error _ => false end.
+  match dehb_mgr_init first md nb with Ok m => run_dev m [] evs | Error _ => false end.
 
 (* scheduler events *)
 Definition sug_eqb (a b : suggestion) : bool :=
@@ -742,6 +746,35 @@ def run_mgr(ctx, replay):
                 if dehb and ret is not None and s["rung_index"] + 1 < len(rss[bid % len(rss)]):
                     for p_, t_ in enumerate(top):
                         evs.append("DMTop %s %s %s" % (natlit(bid), natlit(p_), tidlit(t_)))
+                if dehb and rng.random() < 0.4:
+                    # ask again later, for any bracket above its base rung (answered from the manager's cache)
+                    cand = [j for j, b_ in enumerate(chk.brackets) if 0 < b_["cur"] < len(b_["sys"])]
+                    if cand:
+                        j = rng.choice(cand)
+                        p_ = rng.randrange(chk.brackets[j]["sys"][chk.brackets[j]["cur"]][0])
+                        try:
+                            t_ = mgr.top_of_previous_rung(j, p_)
+                        except Exception as e:
+                            blocked = "top_of_previous_rung raised %s: %s" % (type(e).__name__, e)
+                            break
+                        t_ = None if t_ is None else int(t_)
+                        evs.append("DMTop %s %s %s" % (natlit(j), natlit(p_), tidlit(t_)))
+                        ctx.h("dehb_top_requery", "asked")
+                        # the answer must still be an entry of a best-k set of the rung below, by the checker's own table
+                        kprev = chk.brackets[j]["cur"] - 1
+                        entries = [(v_[0], v_[1]) for v_ in chk.brackets[j]["rungs"][kprev].values()]
+                        ids_ = [x for x, _ in entries]
+                        if None not in ids_ and len(set(ids_)) == len(ids_) and t_ in ids_:
+                            valid_ = [v_ for x, v_ in entries if not isnan(v_)]
+                            mine = dict(entries)[t_]
+                            size_ = chk.brackets[j]["sys"][chk.brackets[j]["cur"]][0]
+                            nbetter = sum(1 for v_ in valid_ if not isnan(mine) and better(sp["mode"], v_, mine))
+                            if (isnan(mine) and len(valid_) >= size_) or (not isnan(mine) and nbetter >= size_):
+                                chk.bad("DEHB top_of_previous_rung(%d, %d) = trial %s (metric %r) asked again later: "
+                                        "not among the best %d of rung %d" % (j, p_, t_, mine, size_, kprev), "promoted_not_best")
+                        elif None not in ids_ and t_ not in ids_:
+                            chk.bad("DEHB top_of_previous_rung(%d, %d) = %s asked again later: not a trial of rung %d %s" % (
+                                j, p_, t_, kprev, ids_), "promoted_not_best")
                 log.append(["ret", bid, dict(s, metric_val=jnum(s["metric_val"])), ret])
         # every unanswered job must still be a pending slot of the checker, and nothing else
         exp = {(b, s["rung_index"], s["slot_index"]) for b, s in outstanding}
